@@ -7,7 +7,7 @@ from ..harness import scn, gen, obs as O, pyeval, impl
 from . import base_scn, compose
 
 pid = 'C14'
-gen_modules = ['tr_state', 'tr_validators', 'tr_has_patcher', 'tr_contracts', 'tr_decorators', 'tr_pin_contracts', 'tr_pin_introspect']
+gen_modules = ['tr_state', 'tr_validators', 'tr_has_patcher', 'tr_contracts', 'tr_decorators', 'tr_pin_contracts', 'tr_pin_introspect', 'tr_rest_validators', 'tr_rest_patcher', 'tr_rest_state']
 model_targets = ['Sem/ScnObj.v']
 hand_modelled = ['coq/Sem/ObjModel.v: get_contracts / unwrap over the heap of function objects (hand-written; source pinned)',
                  'record.validate / init_all: checked on the implementation only']
@@ -97,6 +97,30 @@ def probe(seed):
                 except deal.PostContractError:
                     via = "post"; break
             if via != rt: bad.append([lo, hi, x, rt, via])
+    # pre-initialising inherited contracts changes no later outcome (the overriding method has other defaults / an extra parameter)
+    for _ in range(20):
+        d1, d2 = rnd.randint(5, 15), rnd.randint(50, 150)
+        def build():
+            class Parent:
+                @deal.pre(lambda _: _.x < _.limit)
+                @deal.post(lambda r: r is not None)
+                def f(self, x, limit=d1): return x
+            class Child(Parent):
+                @deal.inherit
+                def f(self, x, limit=d2, extra=0): return x
+            return Child
+        def outcomes(cls):
+            out = []
+            for x in (0, d1 - 1, d1, d1 + 1, d2 - 1, d2, d2 + 1):
+                try: cls().f(x); out.append("ok")
+                except deal.ContractError as e: out.append(type(e).__name__)
+                except BaseException as e: out.append("exc:" + type(e).__name__)
+            return out
+        lazy = outcomes(build())
+        c2 = build(); di.init_all(c2().f); pre_init = outcomes(c2)
+        c3 = build(); [getattr(r, "source", None) for r in di.get_contracts(c3().f)]; read_source = outcomes(c3)
+        if not (lazy == pre_init == read_source):
+            bad.append(["inherited", d1, d2, {"lazy": lazy, "after init_all": pre_init, "after reading record.source": read_source}])
     return bad
 '''
 
